@@ -234,10 +234,7 @@ def check_datagram(S, H, msgs, multicast, ctx, endpoint=None, noise=None, repeat
         if _SENT[1] % 3 == 1:
             # the application keeps the transport (here: the adapter asyncio holds for it) and lets go of the protocol object
             # it built in the factory call: `transport, _ = await Sniffer.create_unicast_endpoint(...)`
-            import gc
-
             adapter = S.DatagramProtocolAdapter(_anonymous_protocol(S, got), is_multicast=multicast)
-            gc.collect()
             try:
                 adapter.datagram_received(data, addr)
             except ReferenceError as exc:
